@@ -174,14 +174,87 @@ func scanFile(fset *token.FileSet, info *types.Info, pkg, fname string, f *ast.F
 	var nds []nduse
 	for _, imp := range f.Imports {
 		p := strings.Trim(imp.Path.Value, "\"")
-		if p == "math/rand" || p == "math/rand/v2" || p == "crypto/rand" {
+		if p == "math/rand" || p == "math/rand/v2" || p == "crypto/rand" || p == "hash/maphash" {
 			nds = append(nds, nduse{Kind: "import:" + p, Pkg: pkg, File: fname, Func: "", Line: fset.Position(imp.Pos()).Line})
 		}
 	}
+	// per-process / per-run values: clocks, random numbers, randomly seeded hashes, process identity
+	perProcess := func(p, sel string) string {
+		switch {
+		case p == "time" && (sel == "Now" || sel == "Since" || sel == "Until"):
+			return "time." + sel
+		case p == "math/rand" || p == "math/rand/v2" || p == "crypto/rand" || p == "hash/maphash":
+			return p + "." + sel
+		case p == "os" && (sel == "Getpid" || sel == "Getppid" || sel == "Hostname"):
+			return "os." + sel
+		}
+		return ""
+	}
+	scanSelectors := func(name string, node ast.Node) {
+		ast.Inspect(node, func(n ast.Node) bool {
+			if _, ok := n.(*ast.FuncLit); ok {
+				return false // function literals are scanned as functions
+			}
+			if x, ok := n.(*ast.SelectorExpr); ok {
+				if id, ok := x.X.(*ast.Ident); ok {
+					if pn, ok := info.Uses[id].(*types.PkgName); ok {
+						if k := perProcess(pn.Imported().Path(), x.Sel.Name); k != "" {
+							nds = append(nds, nduse{Kind: k, Pkg: pkg, File: fname, Func: name, Line: fset.Position(x.Pos()).Line})
+						}
+					}
+				}
+			}
+			return true
+		})
+	}
+	// in-place reordering / compaction of a slice that belongs to the caller (rooted at a parameter):
+	// the function writes into its input
+	inplaceFns := map[string]map[string]bool{
+		"slices": {"Delete": true, "DeleteFunc": true, "Compact": true, "CompactFunc": true, "Reverse": true, "Sort": true, "SortFunc": true,
+			"SortStableFunc": true, "Insert": true, "Replace": true},
+		"sort": {"Slice": true, "SliceStable": true, "Strings": true, "Ints": true, "Float64s": true, "Sort": true, "Stable": true},
+	}
+	rootIdent := func(e ast.Expr) *ast.Ident {
+		for {
+			switch x := e.(type) {
+			case *ast.Ident:
+				return x
+			case *ast.SelectorExpr:
+				e = x.X
+			case *ast.IndexExpr:
+				e = x.X
+			case *ast.SliceExpr:
+				e = x.X
+			case *ast.StarExpr:
+				e = x.X
+			case *ast.ParenExpr:
+				e = x.X
+			case *ast.CallExpr: // conversions byX(s)
+				if len(x.Args) != 1 {
+					return nil
+				}
+				e = x.Args[0]
+			default:
+				return nil
+			}
+		}
+	}
+	var params map[types.Object]bool
 	scanFunc := func(name string, body *ast.BlockStmt) {
 		idx := 0
 		ast.Inspect(body, func(n ast.Node) bool {
 			switch x := n.(type) {
+			case *ast.CallExpr:
+				if sel, ok := x.Fun.(*ast.SelectorExpr); ok && len(x.Args) > 0 {
+					if id, ok := sel.X.(*ast.Ident); ok {
+						if pn, ok := info.Uses[id].(*types.PkgName); ok && inplaceFns[pn.Imported().Path()][sel.Sel.Name] {
+							if r := rootIdent(x.Args[0]); r != nil && params[info.Uses[r]] {
+								nds = append(nds, nduse{Kind: "inplace:" + pn.Imported().Path() + "." + sel.Sel.Name + "(" + types.ExprString(x.Args[0]) + ")",
+									Pkg: pkg, File: fname, Func: name, Line: fset.Position(x.Pos()).Line})
+							}
+						}
+					}
+				}
 			case *ast.RangeStmt:
 				tv, ok := info.Types[x.X]
 				if !ok {
@@ -203,12 +276,8 @@ func scanFile(fset *token.FileSet, info *types.Info, pkg, fname string, f *ast.F
 			case *ast.SelectorExpr:
 				if id, ok := x.X.(*ast.Ident); ok {
 					if pn, ok := info.Uses[id].(*types.PkgName); ok {
-						p := pn.Imported().Path()
-						if p == "time" && (x.Sel.Name == "Now" || x.Sel.Name == "Since" || x.Sel.Name == "Until") {
-							nds = append(nds, nduse{Kind: "time." + x.Sel.Name, Pkg: pkg, File: fname, Func: name, Line: fset.Position(x.Pos()).Line})
-						}
-						if p == "math/rand" || p == "math/rand/v2" || p == "crypto/rand" {
-							nds = append(nds, nduse{Kind: p + "." + x.Sel.Name, Pkg: pkg, File: fname, Func: name, Line: fset.Position(x.Pos()).Line})
+						if k := perProcess(pn.Imported().Path(), x.Sel.Name); k != "" {
+							nds = append(nds, nduse{Kind: k, Pkg: pkg, File: fname, Func: name, Line: fset.Position(x.Pos()).Line})
 						}
 					}
 				}
@@ -220,7 +289,20 @@ func scanFile(fset *token.FileSet, info *types.Info, pkg, fname string, f *ast.F
 		switch x := d.(type) {
 		case *ast.FuncDecl:
 			if x.Body != nil {
+				params = map[types.Object]bool{}
+				fields := []*ast.Field{}
+				if x.Type.Params != nil {
+					fields = append(fields, x.Type.Params.List...)
+				}
+				for _, fl := range fields {
+					for _, nm := range fl.Names {
+						if o := info.Defs[nm]; o != nil {
+							params[o] = true
+						}
+					}
+				}
 				scanFunc(funcName(x), x.Body)
+				params = nil
 			}
 		case *ast.GenDecl:
 			// function literals in package-level variable initialisers (template FuncMaps)
@@ -234,6 +316,7 @@ func scanFile(fset *token.FileSet, info *types.Info, pkg, fname string, f *ast.F
 					if i < len(vs.Names) {
 						nm = "var:" + vs.Names[i].Name
 					}
+					scanSelectors(nm, v) // package-level initialisers run once per process
 					ast.Inspect(v, func(n ast.Node) bool {
 						if fl, ok := n.(*ast.FuncLit); ok {
 							scanFunc(nm, fl.Body)
